@@ -261,6 +261,14 @@ func readConfig(args []string) *CliConfig {
 	}
 	v.Set("pools", pools)
 
+	// A key without value (`discard_overflow:`, null) is a key that is not set: the default applies to it as well.
+	for _, pool := range pools {
+		poolMap := pool.(map[string]any)
+		if val, ok := poolMap["discard_overflow"]; ok && val == nil {
+			poolMap["discard_overflow"] = true
+		}
+	}
+
 	conf := DefaultConfig()
 	err = config.DecodeAndValidate(v.AllSettings(), conf)
 	if err != nil {
